@@ -35,6 +35,8 @@ type cop struct {
 	frag     int           // deliver resp in fragments of at most frag bytes
 	// W
 	raw []byte
+	// D
+	closeErr bool // the connection's Close() returns an error
 }
 
 type ccfg struct {
@@ -167,6 +169,9 @@ func runClientOps(cf ccfg, ops []cop) []copResult {
 				f.FailOn[f.NumCalls()] = !o.dialOK
 				err = cl.Connect()
 			case "D":
+				if cs := f.All(); len(cs) > 0 && o.closeErr {
+					cs[len(cs)-1].OnClose = func() error { return errors.New("fake: close failed") }
+				}
 				err = cl.Disconnect()
 				err = nil // the result of the connection's Close is passed through; the model reports ok
 			case "R":
